@@ -21,7 +21,7 @@ DTS = [0, 0.25, 1, 59.5, 60, 299, 300, 301, 359, 360, 361, 659, 660, 661, 900]
 
 KINDS = ["flow_step", "flow_new", "conn", "claim", "open", "add", "close", "release", "alloc", "list",
          "drop", "reconn", "adv", "restart", "ping", "rawconn", "claim_open",
-         "bad", "resend", "longadv", "faultadv", "fill", "faultadv2"]
+         "bad", "resend", "longadv", "faultadv", "fill", "faultadv2", "linger"]
 
 
 class Profile(object):
@@ -55,7 +55,7 @@ class Profile(object):
         return out
 
 
-BASE_W = dict(flow_step=24, flow_new=4, conn=2, claim=3, open=3, add=4, close=3, release=2, alloc=1, list=1,
+BASE_W = dict(linger=1, flow_step=24, flow_new=4, conn=2, claim=3, open=3, add=4, close=3, release=2, alloc=1, list=1,
               drop=2, reconn=3, adv=3, restart=1, ping=0, rawconn=0, claim_open=1,
               bad=0, resend=0, longadv=0, faultadv=0, fill=0, faultadv2=0)
 
@@ -69,7 +69,7 @@ def W(**kw):
 PROFILES = {
     "mixed": Profile("mixed", W()),
     "replay": Profile("replay", W(add=9, open=7, reconn=4, restart=2, longadv=1), napps=2, nmail=2),
-    "fanout": Profile("fanout", W(add=10, open=8, conn=8, claim=2, alloc=0, release=1, restart=3, adv=5), napps=1, nsides=3, nmail=2, nnames=2, forged=True),
+    "fanout": Profile("fanout", W(linger=3, add=10, open=8, conn=8, claim=2, alloc=0, release=1, restart=3, adv=5), napps=1, nsides=3, nmail=2, nnames=2, forged=True),
     "claims": Profile("claims", W(claim=10, claim_open=2, release=5, close=4, add=1, open=2, restart=2, longadv=2, adv=6, reconn=5), napps=2, nnames=3),
     "crowd": Profile("crowd", W(claim=8, open=7, close=4, release=3, add=4, reconn=4, conn=8, alloc=0, longadv=2, adv=2), napps=1, nsides=4, nnames=1, nmail=1),
     "holders": Profile("holders", W(claim=9, release=7, list=4, close=3, alloc=3, open=2, add=1, restart=2), napps=1, nsides=2, nnames=3),
@@ -422,6 +422,24 @@ class Driver(object):
             return
         if kind == "fill":
             self.fill(a, b, c, m)
+            return
+        if kind == "linger":
+            # one side on two connections, both subscribed; the mailbox is closed (deleted) through
+            # one of them while the other lingers; then the same id is opened again and used
+            app = self.app_of(c)
+            side = self.side_of(a)
+            mb = self.mailbox_literal(app, b)
+            c1 = self.new_conn(app, side)
+            self.do({"op": "send", "c": c1, "msg": {"type": "open", "mailbox": mb}})
+            c2 = self.new_conn(app, side)
+            self.do({"op": "send", "c": c2, "msg": {"type": "open", "mailbox": mb}})
+            self.do({"op": "send", "c": c2, "msg": {"type": "add", "phase": t1, "body": t2}})
+            self.do({"op": "send", "c": c2, "msg": {"type": "close"}})
+            c3 = self.new_conn(app, self.side_of(a + 1))
+            self.do({"op": "send", "c": c3, "msg": {"type": "open", "mailbox": mb}})
+            self.do({"op": "send", "c": c3, "msg": {"type": "add", "phase": t2, "body": t1}})
+            if self.tr.conns.get(c1) is not None and self.tr.conns[c1].alive:
+                self.do({"op": "send", "c": c1, "msg": {"type": "add", "phase": "late", "body": t1}})
             return
         if kind == "faultadv2":
             # three consecutive sweeps fail at their first database access
